@@ -2,6 +2,7 @@ import Driver.Common
 import Driver.C03
 import Rpki.Model.Cert
 import Rpki.Model.CertDer
+import Driver.CertShow
 namespace Driver.C01
 open Driver Rpki.Chain Rpki.Cert
 
@@ -200,6 +201,12 @@ def handle (toks : List String) (impl : String) : Verdict :=
           else none
       { model := some m, oracle := o }
     | _, _ => badOp "facts"
+  | ["certd", h] =>
+    match hexB h with
+    | none => badOp "hex"
+    | some b =>
+      { model := some (Driver.CertShow.certLine b),
+        oracle := if impl = "panic" then some "Cert::decode or an accessor of the decoded certificate panicked" else none }
   | _ => badOp "unknown op"
 
 end Driver.C01
